@@ -340,6 +340,10 @@ def run(ck):
         ck.notes.append("diffuse geometry stage (RegionGeom.throw) not yet under contract")
     ck.bounded_run("real stages on small and awkward batches: permutation, split, single events, frame", lambda: stage_equivariance(ck),
                    design="6 stages (exit probability, tau energy with explicit numbers, decay altitude, optical stage with a stand-in kernel, radio field + SNR, power-law spectrum) x batch sizes 1, 2, 3, 4, 7, 33 with out-of-range events mixed in; fixed per-event random numbers")
+    from contracts import C10
+
+    ck.bounded_run("per-event worker of the optical stage: identical showers at different places, undefined cloud top", lambda: (lambda f: {"evaluations": 6, "failures": f})(C10.twins_design(ck)),
+                   design="6 events with the same angle, altitude and energy at 6 locations; cloud top 9 km / 0.5 km by hemisphere, NaN at one location; real kernel at 33 km, batch vs one at a time")
     ck.bounded_run("target geometry: second call vs fresh object, caller array", lambda: _wrap(native_history(ck)), design="500 sorted random instants a, b on one object vs fresh object (real astropy)")
 
 
